@@ -10,13 +10,16 @@ static void geoTm(GeoState &g, Toks &t, Out &o) {
   if (sub == "new") {
     unsigned ds = t.nat(), gen = t.nat(), age = t.nat(), jt = t.nat();
     double h = t.rat(), m = t.rat();
+    // optional: sign of the joint angle and sign of the joint torque relative to the documented figures
+    double sa = 1.0, st = 1.0;
+    if (t.pos + 1 < t.l.size()) { sa = t.rat(); st = t.rat(); }
     SubjectInformation si;
     si.gender = (GenderSet::item) gen;
     si.ageGroup = (AgeGroupSet::item) age;
     si.heightInMeters = h;
     si.massInKg = m;
     g.tm.reset();
-    g.tm.reset(new Millard2016TorqueMuscle((DataSet::item) ds, si, (int) jt, 0.0, 1.0, 1.0, "c18tm"));
+    g.tm.reset(new Millard2016TorqueMuscle((DataSet::item) ds, si, (int) jt, 0.0, sa, st, "c18tm"));
     o.str("ok");
     o.num(g.tm->getMaximumActiveIsometricTorque());
     o.num(g.tm->getMaximumConcentricJointAngularVelocity());
